@@ -752,6 +752,18 @@ func (engine *Engine) ServeHTTP(c context.Context, ctx *app.RequestContext) {
 
 	rPath := string(ctx.Request.URI().Path())
 
+	// URI.parse refuses a request target that contains a control character by leaving every
+	// component empty; Path() then reports "/" and the request would be routed to the handler
+	// of "/" whatever path it asked for. Such a target is malformed: refuse it.
+	for _, b := range ctx.Request.Header.RequestURI() {
+		if b < ' ' || b == 0x7f {
+			ctx.SetHandlers(engine.Handlers)
+			ctx.SetConnectionClose()
+			serveError(c, ctx, consts.StatusBadRequest, default400Body)
+			return
+		}
+	}
+
 	// align with https://datatracker.ietf.org/doc/html/rfc2616#section-5.2
 	if len(ctx.Request.Host()) == 0 && ctx.Request.Header.IsHTTP11() && bytesconv.B2s(ctx.Request.Method()) != consts.MethodConnect {
 		ctx.SetHandlers(engine.Handlers)
